@@ -40,6 +40,9 @@ type Case struct {
 	GapStart int `json:"gap_start,omitempty"`
 	GapLen   int `json:"gap_len,omitempty"`
 	DT       int `json:"dt,omitempty"` // seconds added to ts(Q)
+	// SubNs: nanoseconds added to the query time (small family, at a state's
+	// time): a query a fraction of a second after state k asks for state k+1
+	SubNs int64 `json:"sub_ns,omitempty"`
 
 	// fault family
 	FaultAt   int `json:"fault_at,omitempty"`   // 1-based request index that fails
@@ -62,8 +65,8 @@ type Case struct {
 }
 
 func (c Case) fingerprint() string {
-	return fmt.Sprintf("%s|%d|%d|%x|%d|%d|%d|%d|%d|%d|%d|%v|%s|%d|%d", c.Family, c.Kind, c.N, c.Mask, c.Q,
-		c.GapStart, c.GapLen, c.DT, c.FaultAt, c.FaultKind, c.Seq, c.AltBase, c.Op, c.PrevUpTo, c.PrevQ)
+	return fmt.Sprintf("%s|%d|%d|%x|%d|%d|%d|%d|%d|%d|%d|%v|%s|%d|%d|%d", c.Family, c.Kind, c.N, c.Mask, c.Q,
+		c.GapStart, c.GapLen, c.DT, c.FaultAt, c.FaultKind, c.Seq, c.AltBase, c.Op, c.PrevUpTo, c.PrevQ, c.SubNs)
 }
 
 func (c Case) dir() *dir {
@@ -83,14 +86,14 @@ func (c Case) dir() *dir {
 // the nominal times of all sequence numbers, present or not.
 func (c Case) queryTime(d *dir) time.Time {
 	if c.Family == "large" {
-		return d.ts(c.Q).Add(time.Duration(c.DT) * time.Second)
+		return d.ts(c.Q).Add(time.Duration(c.DT)*time.Second + time.Duration(c.SubNs))
 	}
 	if c.Q == 0 {
 		return d.ts(1).Add(-time.Second)
 	}
 	k := (c.Q + 1) / 2
 	if c.Q%2 == 1 {
-		return d.ts(k)
+		return d.ts(k).Add(time.Duration(c.SubNs))
 	}
 	return d.ts(k).Add(time.Second)
 }
@@ -750,6 +753,11 @@ func smallCases(n int) []Case {
 		for mask := uint64(1); mask < 1<<uint(n); mask++ {
 			for q := 0; q <= 2*n; q++ {
 				cs = append(cs, Case{Family: "small", Kind: kind, N: n, Mask: mask, Q: q})
+				if q%2 == 1 {
+					// a fraction of a second after state (q+1)/2 was written
+					cs = append(cs, Case{Family: "small", Kind: kind, N: n, Mask: mask, Q: q, SubNs: 500000000},
+						Case{Family: "small", Kind: kind, N: n, Mask: mask, Q: q, SubNs: 1})
+				}
 			}
 		}
 	}
@@ -878,7 +886,7 @@ func urlCases() []Case {
 func main() {
 	kit.Main("C19", "fault_enumeration", func(r *kit.Run) {
 		r.Rule("small family: every non-empty presence pattern of state files over sequence numbers 1..N (newest present = current; " +
-			"timestamps strictly increasing) x every query position (before state 1, at each sequence number's time, 1 s after each) x " +
+			"timestamps strictly increasing) x every query position (before state 1, at each sequence number's time, 1 ns and 500 ms after it, 1 s after it) x " +
 			"{minute,hour,day,changesets}; large family: N in {1000,65537,2000000}, all states present except one run of 1/2/5 missing files " +
 			"placed on or next to every sequence number a plain bisection towards the target looks at, query at the target's time and +-1 s; " +
 			"second family: every presence pattern over 1..5 (7 thorough) x every split point (states up to m published when a first lookup ran on the SAME Datasource, the rest published afterwards) x every later query position; " +
